@@ -120,7 +120,7 @@ def gen_params(ch):
             if ch.flag(1, 6):
                 dmm = None
             else:
-                lo = dt_init / ch.choice([1, 1, 2, 4, 10, 50])
+                lo = dt_init / ch.choice([2, 1, 4, 10, 50, 3, 1.5])
                 hi = dt_init * ch.choice([1, 1, 2, 4, 10, 100])
                 dmm = (lo, hi)
             under = ch.choice([0.7, 0.3, 0.5, 0.9, 0.99])
@@ -346,6 +346,8 @@ def run_tm_walk(ch, tr: Trace) -> None:
             about = tm._is_about_to_hit_schedule
             try:  # solution_strategy.after_nonlinear_failure
                 tm.compute_time_step(recompute_solution=True)
+            except (IndexError, KeyError, TypeError, AttributeError, ZeroDivisionError) as e:
+                raise Violation("failure_handling_completes", f"compute_time_step(recompute_solution=True) raised {e!r} at t={t_att!r}", "tm_unexpected_exception")
             except ValueError as e:
                 orc.raised(e, dt)
                 tr.op("attempt", "raised", t_att)
@@ -362,7 +364,10 @@ def run_tm_walk(ch, tr: Trace) -> None:
                 if k > tm.iter_max:
                     tr.probe("iters_gt_iter_max")
                 pre_dt = tm.dt
-                tm.compute_time_step(iterations=k)
+                try:
+                    tm.compute_time_step(iterations=k)
+                except (IndexError, KeyError, TypeError, AttributeError, ZeroDivisionError, ValueError) as e:
+                    raise Violation("failure_handling_completes", f"compute_time_step(iterations={k}) raised {e!r} at t={t_att!r}", "tm_unexpected_exception")
                 if tm.dt == tm.dt_min_max[0] and pre_dt != tm.dt:
                     tr.probe("clamp_dt_min")
                 if tm.dt == tm.dt_min_max[1] and pre_dt != tm.dt:
@@ -388,7 +393,7 @@ WORKLOADS = [
     Workload(
         name="tm_walk",
         run=run_tm_walk,
-        runs={"quick": 120_000, "thorough": 4_000_000},
+        runs={"quick": 400_000, "thorough": 20_000_000},
         chunk=2000,
         run_timeout=30.0,
         real=["porepy.numerics.time_step_control.TimeManager (constructor checks, compute_time_step, adaptation, corrections, schedule cursor, step-back)"],
@@ -410,3 +415,4 @@ MANIFEST = {
         "the manager's own rtol/atol as the meaning of 'hits a scheduled time', the generator's parameter ranges."
     ),
 }
+DETERMINISM_RUNS = 3000
